@@ -518,6 +518,13 @@ def extract_stream(ctx, sliced, fired):
         t = rw.sub(sl.text, sig, csig, 1, 1, name='sig')
         if name == 'pop_specific':
             t = rw.sub(t, r'(?<![\w.>*])(?<!\* )last_used_lane\b', '(*last_used_lane)', 1, None, name='ref-param')
+            # direction of the round-robin walk: only selects WHICH loop invariant CBMC is asked to check (backward / forward); any other stepping is undecided, not a violation
+            fwd = len(re.findall(r'idx\s*=\s*\(\s*idx\s*\+\s*1\s*\)\s*&\s*\(\s*N\s*-\s*1\s*\)', t))
+            bwd = len(re.findall(r'idx\s*=\s*\(\s*idx\s*-\s*1\s*\)\s*&\s*\(\s*N\s*-\s*1\s*\)', t))
+            if fwd + bwd != 1:
+                raise ExtractionBreak('pop_specific: the lane walk is neither idx=(idx-1)&(N-1) nor idx=(idx+1)&(N-1): no invariant template for it')
+            ctx.popspec_dir = 'FWD' if fwd else 'BWD'
+            rw.fired['pop_specific lane walk direction: %s' % ctx.popspec_dir] = 1
         t = common_rules(t)
         t = rw.number_sites(t, name, by_kind=True)
         t = tag_loops(t, name, rw)
@@ -1004,7 +1011,7 @@ def build(ctx):
         Job('stream.try_push', C, 'h_try_push', route='RG', defines=['STREAM', 'SQ_TRYPUSH'], target='task_stream::try_push + set_one_bit (one arbitrary lane, any number of other threads)', source=TSH),
         Job('stream.try_pop.front', C, 'h_try_pop', route='RG', defines=['STREAM', 'SQ_TRYPOP_FRONT'], target='task_stream<front_accessor>::try_pop + get_item + is_bit_set + clear_one_bit', source=TSH),
         Job('stream.try_pop.back_nonnull', C, 'h_try_pop', route='RG', loops=True, nloops=1, defines=['STREAM', 'SQ_TRYPOP_BACK'], target='task_stream<back_nonnull_accessor>::try_pop + get_item + is_bit_set + clear_one_bit', source=TSH),
-        Job('stream.pop_specific', C, 'h_pop_specific', route='RG', loops=True, nloops=1, defines=['STREAM', 'SQ_ABSTRACT', 'SQ_POPSPEC'], target='task_stream::pop_specific + empty + is_bit_set + clear_one_bit (any N, one arbitrary lane tracked)', source=TSH),
+        Job('stream.pop_specific', C, 'h_pop_specific', route='RG', loops=True, nloops=1, defines=['STREAM', 'SQ_ABSTRACT', 'SQ_POPSPEC', 'POPSPEC_' + ctx.popspec_dir], target='task_stream::pop_specific + empty + is_bit_set + clear_one_bit (any N, one arbitrary lane tracked)', source=TSH),
         Job('stream.push', C, 'h_push', route='LC', loops=True, nloops=1, defines=['STREAM', 'SQ_ABSTRACT', 'SQ_PUSH'], target='task_stream::push (retry loop over try_push)', source=TSH),
         Job('stream.pop', C, 'h_pop', route='LC', loops=True, nloops=1, defines=['STREAM', 'SQ_ABSTRACT', 'SQ_POP'], target='task_stream::pop + empty (retry loop over try_pop)', source=TSH),
         Job('stream.lanes.selectors', C, 'h_lane_selectors', route='LF', defines=['STREAM', 'SQ_ABSTRACT', 'SQ_LANES'], target='subsequent_ / preceding_ / random_lane_selector::operator()', source=TSH),
